@@ -680,3 +680,260 @@ Proof.
   - rewrite E. cbn [combine filter snd map fst flat_map ics length app seq]. f_equal. apply IH.
   - rewrite E. cbn [filter]. apply IH.
 Qed.
+
+(* ====================================================================== *)
+(* G. the scans: which indices, which cut ids, which bases                 *)
+(* ====================================================================== *)
+Definition is_qpd1 (x : instr) : bool := match suffix_of x with None => false | Some _ => true end.
+Definition singletons (L : list nat) : list (list nat) := map (fun p => [p]) L.
+(* the cut ids of the one-qubit placeholders of a circuit, in order *)
+Definition suffixes (c : circ) : list nat :=
+  flat_map (fun x => match suffix_of x with Some (Some k) => [k] | _ => [] end) c.
+
+Lemma concat_singletons L : concat (singletons L) = L.
+Proof. induction L as [|p L IH]; simpl; congruence. Qed.
+
+Lemma singletons_wf L : StronglySorted lt L ->
+  NoDup (concat (singletons L)) /\ forall g, In g (singletons L) -> length g = 1.
+Proof.
+  intros H. rewrite concat_singletons. split; [now apply sorted_lt_NoDup|].
+  intros g Hg. apply in_map_iff in Hg as (p & <- & _). reflexivity.
+Qed.
+
+Lemma mapping_scan_spec : forall c i ids sfx,
+  mapping_scan i c = Ok (ids, sfx) ->
+  ids = singletons (positions_from is_qpd1 i c) /\ sfx = suffixes c /\
+  (forall x, In x c -> suffix_of x <> Some None).
+Proof.
+  induction c as [|x r IH]; intros i ids sfx H; cbn [mapping_scan] in H.
+  - inversion H. repeat split. intros x [].
+  - unfold suffixes, is_qpd1. cbn [positions_from flat_map]. destruct (suffix_of x) as [[k|]|] eqn:E.
+    + apply res_map_ok in H as ([ids' sfx'] & H & Heq). inversion Heq; subst. cbn [fst snd].
+      destruct (IH _ _ _ H) as (-> & -> & Hn). repeat split.
+      intros y [<-|Hy]; [congruence|now apply Hn].
+    + discriminate.
+    + destruct (IH _ _ _ H) as (-> & -> & Hn). repeat split.
+      intros y [<-|Hy]; [congruence|now apply Hn].
+Qed.
+
+Lemma get_bases_spec : forall c i bs ids,
+  get_bases i c = Ok (bs, ids) ->
+  ids = singletons (positions_from is_qpd2 i c) /\
+  bs = flat_map (fun x => match iop x with Qpd2 b _ _ => [b] | _ => [] end) c /\
+  (forall x, In x c -> is_qpd1 x = false).
+Proof.
+  induction c as [|x r IH]; intros i bs ids H; cbn [get_bases] in H.
+  - inversion H. repeat split. intros x [].
+  - unfold is_qpd2, is_qpd1, suffix_of. cbn [positions_from flat_map].
+    destruct (iop x) eqn:E; try discriminate;
+      try (destruct (IH _ _ _ H) as (-> & -> & Hn); repeat split;
+           intros y [<-|Hy]; [unfold is_qpd1, suffix_of; now rewrite E|now apply Hn]).
+    apply res_map_ok in H as ([bs' ids'] & H & Heq). inversion Heq; subst. cbn [fst snd].
+    destruct (IH _ _ _ H) as (-> & -> & Hn). repeat split.
+    intros y [<-|Hy]; [unfold is_qpd1, suffix_of; now rewrite E|now apply Hn].
+Qed.
+
+Lemma project_spec joint : forall sfx ms,
+  project joint sfx = Ok ms -> Forall2 (fun k m => nth_error joint k = Some m) sfx ms.
+Proof.
+  induction sfx as [|k r IH]; intros ms H; cbn [project] in H.
+  - inversion H. constructor.
+  - destruct (nth_error joint k) as [m|] eqn:E; [|discriminate].
+    apply res_map_ok in H as (ms' & H & ->). constructor; auto.
+Qed.
+
+(* the placeholder at data index p whose label ends in _k is decomposed with joint[k] *)
+Lemma projection_gen joint : forall c i ids sfx ms q x k,
+  mapping_scan i c = Ok (ids, sfx) -> project joint sfx = Ok ms ->
+  nth_error c q = Some x -> suffix_of x = Some (Some k) ->
+  exists m, nth_error joint k = Some m /\ In ([i + q], m) (combine ids ms).
+Proof.
+  induction c as [|x0 r IH]; intros i ids sfx ms q x k H Hp Hq Hx; [destruct q; discriminate|].
+  cbn [mapping_scan] in H. destruct (suffix_of x0) as [[k0|]|] eqn:E0.
+  - apply res_map_ok in H as ([ids' sfx'] & H & Heq). inversion Heq; subst; clear Heq. cbn [fst snd] in *.
+    cbn [project] in Hp. destruct (nth_error joint k0) as [m0|] eqn:Em; [|discriminate].
+    apply res_map_ok in Hp as (ms' & Hp & ->).
+    destruct q as [|q]; cbn [nth_error] in Hq.
+    + inversion Hq; subst x0. rewrite Hx in E0. inversion E0; subst k0.
+      exists m0. split; [exact Em|]. rewrite Nat.add_0_r. now left.
+    + destruct (IH _ _ _ _ _ _ _ H Hp Hq Hx) as (m & Hm & Hin).
+      exists m. split; [exact Hm|]. rewrite Nat.add_succ_r. now right.
+  - discriminate.
+  - destruct q as [|q]; cbn [nth_error] in Hq.
+    + inversion Hq; subst x0. congruence.
+    + destruct (IH _ _ _ _ _ _ _ H Hp Hq Hx) as (m & Hm & Hin).
+      exists m. split; [exact Hm|]. now rewrite Nat.add_succ_r.
+Qed.
+
+Lemma In_combine_map {A B C} (f : B -> C) (l : list A) (l' : list B) a b :
+  In (a, b) (combine l l') -> In (a, f b) (combine l (map f l')).
+Proof.
+  revert l'; induction l as [|x l IH]; intros [|y l'] H; simpl in *; try contradiction.
+  destruct H as [H|H]; [inversion H; now left|right; now apply IH].
+Qed.
+
+(* ====================================================================== *)
+(* H. generate: which arguments are accepted, and what a success means     *)
+(* ====================================================================== *)
+Lemma generate_refuses_N gh gsx env cenv circuits observables N W :
+  ge1 N = false -> generate gh gsx env cenv circuits observables N W = Refused.
+Proof. intros H. unfold generate. rewrite H. destruct circuits, observables; reflexivity. Qed.
+
+Lemma generate_dict_inv gh gsx env cenv d od N W r :
+  generate gh gsx env cenv (CDict d) (ODict od) N W = Ok r ->
+  ge1 N = true /\
+  exists M og dd, mapping_by_partition d = Ok M /\ all_groups od = Ok og /\
+    core gh gsx env (map (fun b => nth b cenv []) (bases_by_partition d)) (table_of d M) og W = Ok (dd, snd r) /\
+    fst r = OutDict dd.
+Proof.
+  unfold generate. destruct (ge1 N); cbn [negb]; [|discriminate]. intros H. split; [reflexivity|].
+  apply res_bind_ok in H as (M & HM & H). apply res_bind_ok in H as (og & Hog & H).
+  apply res_bind_ok in H as ([dd cf] & Hc & H). inversion H; subst r; clear H.
+  exists M, og, dd. auto.
+Qed.
+
+Lemma generate_single_inv gh gsx env cenv qc gs N W r :
+  generate gh gsx env cenv (CSingle qc) (OPaulis gs) N W = Ok r ->
+  ge1 N = true /\
+  exists groups bs ids lA l, gs = Ok groups /\ get_bases 0 (mdata qc) = Ok (bs, ids) /\
+    core gh gsx env (map (fun b => nth b cenv []) bs) [(label_A, mkPI qc ids None)] [(label_A, groups)] W
+      = Ok ([(lA, l)], snd r) /\
+    fst r = OutList l.
+Proof.
+  unfold generate. destruct (ge1 N); cbn [negb]; [|discriminate]. intros H. split; [reflexivity|].
+  apply res_bind_ok in H as (groups & Hg & H). apply res_bind_ok in H as ([bs ids] & Hb & H).
+  apply res_bind_ok in H as ([dd cf] & Hc & H). cbn [fst snd] in *.
+  destruct dd as [|[lA l] [|? ?]]; try discriminate. inversion H; subst r; clear H.
+  exists groups, bs, ids, lA, l. auto.
+Qed.
+
+(* only the two documented argument forms can succeed *)
+Lemma generate_ok_forms gh gsx env cenv circuits observables N W r :
+  generate gh gsx env cenv circuits observables N W = Ok r ->
+  (exists qc gs, circuits = CSingle qc /\ observables = OPaulis gs) \/
+  (exists d od, circuits = CDict d /\ observables = ODict od).
+Proof.
+  unfold generate. destruct circuits as [qc|d|], observables as [gs|od|]; try discriminate.
+  - intros _. left. eauto.
+  - intros _. right. eauto.
+  - destruct (ge1 N); discriminate.
+  - destruct (ge1 N); discriminate.
+  - destruct (ge1 N); discriminate.
+Qed.
+
+(* the partition table of the separated form *)
+Lemma mapping_lookup : forall d M l qc,
+  mapping_by_partition d = Ok M -> alookup d l = Some qc ->
+  exists m, alookup M l = Some m /\ mapping_scan 0 (mdata qc) = Ok m.
+Proof.
+  induction d as [|[l0 q0] d IH]; intros M l qc H Hl; [discriminate|].
+  cbn [mapping_by_partition] in H. apply res_bind_ok in H as (m0 & Hm0 & H).
+  apply res_map_ok in H as (M' & HM' & ->). cbn [alookup] in *.
+  destruct (Nat.eqb l l0); [inversion Hl; subst; eauto|eauto].
+Qed.
+
+Lemma table_lookup d M l p :
+  mapping_by_partition d = Ok M -> alookup (table_of d M) l = Some p ->
+  exists qc ids sfx, alookup d l = Some qc /\ mapping_scan 0 (mdata qc) = Ok (ids, sfx) /\
+                     p = mkPI qc ids (Some sfx).
+Proof.
+  intros HM. unfold table_of.
+  assert (H : forall d', alookup (map (fun lq : nat * mcirc => (fst lq, match alookup M (fst lq) with
+                      | Some m => mkPI (snd lq) (fst m) (Some (snd m)) | None => mkPI (snd lq) [] (Some []) end)) d') l = Some p ->
+            exists qc, alookup d' l = Some qc /\
+              p = match alookup M l with Some m => mkPI qc (fst m) (Some (snd m)) | None => mkPI qc [] (Some []) end).
+  { induction d' as [|[l0 q0] d' IH]; cbn [map alookup fst snd]; [discriminate|].
+    destruct (Nat.eqb_spec l l0) as [->|Hne]; [|exact IH].
+    intros H. inversion H. eauto. }
+  intros Hl. destruct (H d Hl) as (qc & Hqc & ->).
+  destruct (mapping_lookup d M l qc HM Hqc) as ([ids sfx] & Hm & Hs).
+  rewrite Hm. exists qc, ids, sfx. auto.
+Qed.
+
+(* in both forms the decomposition requests are singleton groups over distinct indices *)
+Definition table_wf (table : list (nat * pinfo)) : Prop :=
+  forall l p, alookup table l = Some p ->
+    NoDup (concat (pi_ids p)) /\ forall g, In g (pi_ids p) -> length g = 1.
+
+Lemma table_of_wf d M : mapping_by_partition d = Ok M -> table_wf (table_of d M).
+Proof.
+  intros HM l p Hl. destruct (table_lookup d M l p HM Hl) as (qc & ids & sfx & _ & Hs & ->).
+  apply mapping_scan_spec in Hs as (-> & _ & _). cbn [pi_ids].
+  apply singletons_wf, positions_sorted.
+Qed.
+
+Lemma single_table_wf qc bs ids l :
+  get_bases 0 (mdata qc) = Ok (bs, ids) -> table_wf [(l, mkPI qc ids None)].
+Proof.
+  intros H l' p Hl. cbn [alookup] in Hl. destruct (Nat.eqb l' l); [|discriminate].
+  inversion Hl; subst p. cbn [pi_ids]. apply get_bases_spec in H as (-> & _ & _).
+  apply singletons_wf, positions_sorted.
+Qed.
+
+(* a built circuit has the declared shape *)
+Theorem built_shape gh gsx env table joint l g e :
+  table_wf table -> built gh gsx env table joint l g e ->
+  exists p ms, alookup table l = Some p /\
+    match pi_sfx p with None => Ok joint | Some sfx => project joint sfx end = Ok ms /\
+    valid env (mdata (pi_qc p)) (pi_ids p) (map Z.of_nat ms) /\
+    existsb fst (mcregs (pi_qc p)) = false /\
+    length (og_general g) = mnq (pi_qc p) /\
+    e = spec_exp gh gsx env (pi_qc p) (pi_ids p) ms g.
+Proof.
+  intros Hwf (p & ms & Hp & Hms & Hb). destruct (Hwf l p Hp) as (Hnd & H1).
+  destruct (build1_shape _ _ _ _ _ _ _ _ Hb Hnd H1) as (Hv & Hr & Hn & He).
+  exists p, ms. auto 10.
+Qed.
+
+(* refusals of the two scans *)
+Lemma mapping_scan_refuses : forall c i x,
+  In x c -> suffix_of x = Some None -> mapping_scan i c = Refused.
+Proof.
+  induction c as [|x0 r IH]; intros i x Hin Hx; [destruct Hin|]. cbn [mapping_scan].
+  destruct Hin as [->|Hin]; [now rewrite Hx|].
+  destruct (suffix_of x0) as [[k|]|]; [|reflexivity|now apply (IH _ x)].
+  now rewrite (IH (S i) x Hin Hx).
+Qed.
+
+Lemma mapping_scan_not_crashed : forall c i, mapping_scan i c <> Crashed.
+Proof.
+  induction c as [|x0 r IH]; intros i; cbn [mapping_scan]; [discriminate|].
+  destruct (suffix_of x0) as [[k|]|]; [|discriminate|apply IH].
+  specialize (IH (S i)). destruct (mapping_scan (S i) r); simpl; congruence.
+Qed.
+
+Lemma mapping_by_partition_refuses : forall d l qc x,
+  In (l, qc) d -> In x (mdata qc) -> suffix_of x = Some None -> mapping_by_partition d = Refused.
+Proof.
+  induction d as [|[l0 q0] d IH]; intros l qc x Hin Hx Hs; [destruct Hin|]. cbn [mapping_by_partition].
+  destruct Hin as [Heq|Hin].
+  - inversion Heq; subst. now rewrite (mapping_scan_refuses _ 0 x Hx Hs).
+  - pose proof (mapping_scan_not_crashed (mdata q0) 0) as Hnc.
+    destruct (mapping_scan 0 (mdata q0)); [|reflexivity|congruence].
+    cbn [res_bind]. now rewrite (IH l qc x Hin Hx Hs).
+Qed.
+
+Lemma generate_refuses_suffix gh gsx env cenv d od N W l qc x :
+  ge1 N = true -> In (l, qc) d -> In x (mdata qc) -> suffix_of x = Some None ->
+  generate gh gsx env cenv (CDict d) (ODict od) N W = Refused.
+Proof.
+  intros HN Hin Hx Hs. unfold generate. rewrite HN. cbn [negb].
+  now rewrite (mapping_by_partition_refuses d l qc x Hin Hx Hs).
+Qed.
+
+Lemma get_bases_refuses : forall c i x, In x c -> is_qpd1 x = true -> get_bases i c = Refused.
+Proof.
+  induction c as [|x0 r IH]; intros i x Hin Hx; [destruct Hin|]. cbn [get_bases].
+  destruct Hin as [->|Hin].
+  - unfold is_qpd1, suffix_of in Hx. destruct (iop x); try discriminate. reflexivity.
+  - destruct (iop x0); try (now apply (IH _ x)); [|reflexivity].
+    now rewrite (IH (S i) x Hin Hx).
+Qed.
+
+Lemma generate_refuses_1q gh gsx env cenv qc groups N W x :
+  ge1 N = true -> In x (mdata qc) -> is_qpd1 x = true ->
+  generate gh gsx env cenv (CSingle qc) (OPaulis (Ok groups)) N W = Refused.
+Proof.
+  intros HN Hin Hx. unfold generate. rewrite HN. cbn [negb res_bind].
+  now rewrite (get_bases_refuses _ 0 x Hin Hx).
+Qed.
